@@ -260,7 +260,8 @@ SPECS["C10"] = {
                     "eta*n normalised (extended precision)",
                     "crval2 = +90 exactly is only generated with an explicit LONPOLE=180 (the FITS default differs there)",
                     "for find=False the statement gives no number: judged against the fresh-object value and against "
-                    "max(1e-3 px, half the error of ignoring the distortion)",
+                    "max(1e-3 px, min(half the error of ignoring the distortion, 50 x the error of an independently fitted inverse "
+                    "polynomial of the same order at the same positions))",
                     "dict headers with lower-case keys; thread-level sharing of one object is not claimed by the property"],
     "manifest": {
         "design_ref": "3.2",
